@@ -232,7 +232,7 @@ class Helper(object):
             return 'async'
         if any(d is None or d not in OK_DECORATORS for d in self.decorators):
             return 'decorator'
-        if n.args.vararg or n.args.kwarg:
+        if n.args.vararg:
             return 'varargs'
         if n.name.startswith('__') and n.name.endswith('__'):
             return 'dunder'
@@ -292,8 +292,23 @@ class _Subst(ast.NodeTransformer):
     def visit_Lambda(self, node):
         a = node.args
         names = {x.arg for x in a.posonlyargs + a.args + a.kwonlyargs}
-        if names & set(self.sub):
-            raise CannotInline('lambda parameter shadows')
+        shadowed = names & set(self.sub)
+        if shadowed:
+            # the lambda's own parameters hide the outer names inside its
+            # body: substitute the rest only, unless a replacement expression
+            # would be captured by one of the parameters
+            rest = {k: v for k, v in self.sub.items() if k not in shadowed}
+            for v in rest.values():
+                if any(isinstance(x, ast.Name) and x.id in names
+                       for x in ast.walk(v)):
+                    raise CannotInline('lambda parameter captures')
+            inner = type(self).__new__(type(self))
+            inner.__dict__.update(self.__dict__)
+            inner.sub = rest
+            node.body = inner.visit(node.body)
+            for d in list(a.defaults) + [d for d in a.kw_defaults if d]:
+                self.visit(d)
+            return node
         self.generic_visit(node)
         return node
 
@@ -693,7 +708,13 @@ class Inliner(object):
         for name, arg in zip(pos, call.args):
             bound.append((name, arg))
             seen.add(name)
+        extra_keys, extra_vals = [], []
         for k in call.keywords:
+            if a.kwarg is not None and k.arg not in seen and \
+                    k.arg not in pos + kwonly:
+                extra_keys.append(ast.Constant(value=k.arg))
+                extra_vals.append(k.value)
+                continue
             if k.arg in seen or k.arg not in pos + kwonly:
                 raise CannotInline('keyword %s' % k.arg)
             if k.arg in [x.arg for x in a.posonlyargs]:
@@ -705,6 +726,10 @@ class Inliner(object):
                 if name not in defaults:
                     raise CannotInline('missing argument %s' % name)
                 bound.append((name, copy.deepcopy(defaults[name])))
+        if a.kwarg is not None:
+            # **kw collects the remaining keywords of this call, in order
+            bound.append((a.kwarg.arg,
+                          ast.Dict(keys=extra_keys, values=extra_vals)))
         return bound
 
     def caller_aliases(self) -> Dict[str, ast.AST]:
@@ -1283,6 +1308,29 @@ def undo_dict_dispatch(trees, ref_trees) -> List[Tuple[str, str, str]]:
                 h, table, key, form = lk
                 j = i + 1
                 guard = None
+                # form C: `if h is None: <other> else: <use>` is form B with
+                # the branches the other way round
+                if form == 'get' and j < len(stmts) and \
+                        isinstance(stmts[j], ast.If) and stmts[j].orelse:
+                    t = stmts[j].test
+                    none_test = (
+                        isinstance(t, ast.UnaryOp) and
+                        isinstance(t.op, ast.Not) and
+                        isinstance(t.operand, ast.Name) and
+                        t.operand.id == h) or (
+                        isinstance(t, ast.Compare) and len(t.ops) == 1 and
+                        isinstance(t.ops[0], ast.Is) and
+                        isinstance(t.left, ast.Name) and t.left.id == h and
+                        isinstance(t.comparators[0], ast.Constant) and
+                        t.comparators[0].value is None)
+                    if none_test:
+                        stmts[j].test = ast.Compare(
+                            left=ast.Name(id=h, ctx=ast.Load()),
+                            ops=[ast.IsNot()],
+                            comparators=[ast.Constant(value=None)])
+                        stmts[j].body, stmts[j].orelse = \
+                            stmts[j].orelse, stmts[j].body
+                        ast.fix_missing_locations(stmts[j])
                 # form B: `if h is not None: <use>` / `if h: <use>`
                 if form == 'get' and j < len(stmts) and \
                         is_some_guard(stmts[j], h):
@@ -1383,6 +1431,148 @@ def _all_nodes_post_order(e) -> List[ast.AST]:
         out.append(n)
     rec(e)
     return out
+
+
+def fold_dict_updates(fn) -> int:
+    """`d = {A}` immediately followed by `d.update({B})` (both displays with
+    constant keys) is `d = {A, B}`; later keys replace earlier ones.  This is
+    what a **kwargs helper looks like after inlining."""
+    done = 0
+
+    def const_keys(d):
+        return isinstance(d, ast.Dict) and all(
+            isinstance(k, ast.Constant) for k in d.keys)
+
+    def block(stmts):
+        nonlocal done
+        out = []
+        for st in stmts:
+            for field in ('body', 'orelse', 'finalbody'):
+                sub = getattr(st, field, None)
+                if isinstance(sub, list) and sub and \
+                        isinstance(sub[0], ast.stmt) and not isinstance(
+                            st, (ast.FunctionDef, ast.ClassDef,
+                                 ast.AsyncFunctionDef)):
+                    setattr(st, field, block(sub))
+            for h in getattr(st, 'handlers', []) or []:
+                h.body = block(h.body)
+            prev = out[-1] if out else None
+            if isinstance(st, ast.Expr) and isinstance(st.value, ast.Call) and \
+                    isinstance(st.value.func, ast.Attribute) and \
+                    st.value.func.attr == 'update' and \
+                    isinstance(st.value.func.value, ast.Name) and \
+                    len(st.value.args) == 1 and not st.value.keywords and \
+                    const_keys(st.value.args[0]) and \
+                    isinstance(prev, ast.Assign) and \
+                    len(prev.targets) == 1 and \
+                    isinstance(prev.targets[0], ast.Name) and \
+                    prev.targets[0].id == st.value.func.value.id and \
+                    const_keys(prev.value):
+                base, add = prev.value, st.value.args[0]
+                for k, v in zip(add.keys, add.values):
+                    hit = [i for i, bk in enumerate(base.keys)
+                           if bk.value == k.value]
+                    if hit:
+                        base.values[hit[0]] = v
+                    else:
+                        base.keys.append(k)
+                        base.values.append(v)
+                done += 1
+                continue
+            out.append(st)
+        return out
+    fn.body = block(fn.body)
+    return done
+
+
+def unfold_mapping_comprehensions(fn, ref_fn) -> List[str]:
+    """Undo "loop -> comprehension" for an ordered mapping: where the
+    reference creates `X = OrderedDict()` (or dict() / {}) and fills it in a
+    loop, and the current function has `X = OrderedDict((k, v) for t in it
+    if c)` (or a dict comprehension), rewrite it as the loop
+
+        X = OrderedDict()
+        for t in it:
+            if c:
+                X[k] = v
+
+    Evaluation order is the same (k before v per element, elements in
+    iteration order)."""
+    ref_empty = set()
+    for n in ast.walk(ref_fn):
+        if isinstance(n, ast.Assign) and len(n.targets) == 1 and \
+                isinstance(n.targets[0], ast.Name):
+            v = n.value
+            if (isinstance(v, ast.Call) and isinstance(v.func, ast.Name) and
+                    v.func.id in ('OrderedDict', 'dict') and not v.args and
+                    not v.keywords) or (isinstance(v, ast.Dict) and
+                                        not v.keys):
+                ref_empty.add(n.targets[0].id)
+    done: List[str] = []
+    if not ref_empty:
+        return done
+
+    def block(stmts):
+        out = []
+        for st in stmts:
+            for field in ('body', 'orelse', 'finalbody'):
+                sub = getattr(st, field, None)
+                if isinstance(sub, list) and sub and \
+                        isinstance(sub[0], ast.stmt) and not isinstance(
+                            st, (ast.FunctionDef, ast.ClassDef,
+                                 ast.AsyncFunctionDef)):
+                    setattr(st, field, block(sub))
+            for h in getattr(st, 'handlers', []) or []:
+                h.body = block(h.body)
+            if isinstance(st, ast.Assign) and len(st.targets) == 1 and \
+                    isinstance(st.targets[0], ast.Name) and \
+                    st.targets[0].id in ref_empty:
+                x = st.targets[0].id
+                v = st.value
+                comp = ctor = None
+                if isinstance(v, ast.Call) and isinstance(v.func, ast.Name) \
+                        and v.func.id in ('OrderedDict', 'dict') and \
+                        len(v.args) == 1 and not v.keywords and \
+                        isinstance(v.args[0], (ast.GeneratorExp,
+                                               ast.ListComp)) and \
+                        isinstance(v.args[0].elt, ast.Tuple) and \
+                        len(v.args[0].elt.elts) == 2:
+                    comp, ctor = v.args[0], v.func.id
+                    key, val = comp.elt.elts
+                elif isinstance(v, ast.DictComp):
+                    comp, ctor = v, 'dict'
+                    key, val = v.key, v.value
+                if comp is not None and len(comp.generators) == 1 and \
+                        not comp.generators[0].is_async:
+                    gen = comp.generators[0]
+                    store = ast.Assign(
+                        targets=[ast.Subscript(
+                            value=ast.Name(id=x, ctx=ast.Load()),
+                            slice=key, ctx=ast.Store())],
+                        value=val)
+                    body = [store]
+                    for c in reversed(gen.ifs):
+                        body = [ast.If(test=c, body=body, orelse=[])]
+                    tgt = copy.deepcopy(gen.target)
+                    for n in ast.walk(tgt):
+                        if isinstance(n, ast.Name):
+                            n.ctx = ast.Store()
+                    loop = ast.For(target=tgt, iter=gen.iter, body=body,
+                                   orelse=[])
+                    create = ast.Assign(
+                        targets=[ast.Name(id=x, ctx=ast.Store())],
+                        value=ast.Call(func=ast.Name(id=ctor, ctx=ast.Load()),
+                                       args=[], keywords=[]))
+                    for n in (create, loop):
+                        ast.copy_location(n, st)
+                        ast.fix_missing_locations(n)
+                    out.extend([create, loop])
+                    done.append(x)
+                    continue
+            out.append(st)
+        return out
+    fn.body = block(fn.body)
+    return done
 
 
 def forward_new_temps(fn, ref_fn) -> List[str]:
